@@ -1,7 +1,9 @@
 package checks
 
 import (
+	"errors"
 	"fmt"
+	"strings"
 	"syscall"
 
 	libaudit "github.com/elastic/go-libaudit/v2"
@@ -113,5 +115,64 @@ func c08ForgedAcks(c *mon.Ctx) {
 		}
 		syscall.Close(fd)
 		nl.Close()
+	}
+}
+
+// c08RepeatedCommands: "each command ... reports the kernel's verdict for ITS OWN request": the same command with
+// the same argument issued again on one client is a new request with a verdict of its own (the kernel may have
+// been made immutable in between): first answered with errno 0, then 1-3 more times with another errno.
+func c08RepeatedCommands(c *mon.Ctx) {
+	type cmd struct {
+		name string
+		call func(cl *libaudit.AuditClient) error
+	}
+	rule := make([]byte, uapi.RuleOffBuf)
+	cmds := []cmd{
+		{"SetEnabled(true)", func(cl *libaudit.AuditClient) error { return cl.SetEnabled(true, libaudit.WaitForReply) }},
+		{"SetEnabled(false)", func(cl *libaudit.AuditClient) error { return cl.SetEnabled(false, libaudit.WaitForReply) }},
+		{"SetRateLimit(7)", func(cl *libaudit.AuditClient) error { return cl.SetRateLimit(7, libaudit.WaitForReply) }},
+		{"SetBacklogLimit(0)", func(cl *libaudit.AuditClient) error { return cl.SetBacklogLimit(0, libaudit.WaitForReply) }},
+		{"SetFailure(silent)", func(cl *libaudit.AuditClient) error {
+			return cl.SetFailure(libaudit.SilentOnFailure, libaudit.WaitForReply)
+		}},
+		{"SetBacklogWaitTime(1)", func(cl *libaudit.AuditClient) error { return cl.SetBacklogWaitTime(1, libaudit.WaitForReply) }},
+		{"SetImmutable", func(cl *libaudit.AuditClient) error { return cl.SetImmutable(libaudit.WaitForReply) }},
+		{"SetPID", func(cl *libaudit.AuditClient) error { return cl.SetPID(libaudit.WaitForReply) }},
+		{"AddRule", func(cl *libaudit.AuditClient) error { return cl.AddRule(rule) }},
+		{"DeleteRule", func(cl *libaudit.AuditClient) error { return cl.DeleteRule(rule) }},
+	}
+	for _, cm := range cmds {
+		for _, errno := range []syscall.Errno{syscall.EPERM, syscall.EEXIST, syscall.ENOENT, syscall.EINVAL} {
+			for repeats := 1; repeats <= 3; repeats++ {
+				sim := simkernel.New(10)
+				sim.OnSend = func(s *simkernel.Sim, idx int, m simkernel.SentMsg) []simkernel.Step {
+					if idx == 0 {
+						return []simkernel.Step{{Dgram: simkernel.Ack(m, 0)}}
+					}
+					return []simkernel.Step{{Dgram: simkernel.Ack(m, errno)}}
+				}
+				cl := &libaudit.AuditClient{Netlink: sim}
+				c.Add("evaluations", 1)
+				c.Add("repeated_identical_commands", 1)
+				if err := cm.call(cl); err != nil {
+					c.Violation("spurious-error:repeat", fmt.Sprintf("%s, acknowledged with errno 0, returned %v", cm.name, err), &c08Case{})
+					continue
+				}
+				for i := 1; i <= repeats; i++ {
+					err := cm.call(cl)
+					if len(sim.Sent) != i+1 {
+						c.Violation("repeat-not-sent", fmt.Sprintf("call #%d of %s on one client: %d requests reached the kernel, want %d (each call is a request of its own); it returned %v", i+1, cm.name, len(sim.Sent), i+1, err), &c08Case{})
+						break
+					}
+					if err != nil && cm.name == "AddRule" && errno == syscall.EEXIST && strings.Contains(err.Error(), "rule exists") {
+						continue // documented text for EEXIST (same exception as in the main oracle)
+					}
+					if !errors.Is(err, errno) {
+						c.Violation("repeat-wrong-verdict", fmt.Sprintf("call #%d of %s was refused by the kernel with errno %d, the client returned %v", i+1, cm.name, int(errno), err), &c08Case{})
+						break
+					}
+				}
+			}
+		}
 	}
 }
